@@ -96,6 +96,12 @@ def _rr_calls(facts, body):
 @rule('RR-COVER', {
     'C18': 'an uncovered clock-carrying field keeps dots, so "the replica\'s own full clock empties it" fails',
     'C05': 'Map reset-remove relies on nested values forgetting the covered dots',
+    'C20': '[primitive] a covered dot that survives in some field of a nested value is residue: replicas that learned the same key '
+           'remove and the same edits in different orders stop being equal (MAP-RESET-PAIR, RM/nested-reset call this routine)',
+    'C03': '[primitive] Map::merge and the key remove reset nested values through this routine (MAP-RESET-PAIR serves C03): what it '
+           'leaves behind on one route and not on the other makes merge and op delivery disagree',
+    'C09': '[primitive] a nested member whose adds a key remove covered stays absent only if the nested reset forgets those dots '
+           '(MAP-RESET-PAIR serves C09)',
 }, floor=3)
 def rr_cover(ctx):
     """ResetRemove::reset_remove of Orswot, Map and MVReg resets every clock-carrying position of every field with the
@@ -170,6 +176,9 @@ def rr_cover(ctx):
     'C20': 'no empty entry / empty pending remove / empty register value is left behind',
     'C04': 'an Orswot member with an empty witness would still read as present',
     'C05': 'a Map key with an empty entry clock would still read as present',
+    'C03': '[primitive] nested values are reset through this routine by Map::merge and by the key remove (MAP-RESET-PAIR): an '
+           'emptied member left in place reads as present on that route only',
+    'C09': '[primitive] same: the member a covering key remove emptied must disappear',
 }, floor=5)
 def rr_prune(ctx):
     """In reset_remove: an element / pending remove / register value is dropped exactly when its reset clock is empty."""
@@ -195,7 +204,7 @@ def rr_prune(ctx):
                 cit = interp(facts, cb)
                 ctx.analysed.add(cb.key)
                 name = '%s/%s' % (inst, field)
-                props = ['C18', 'C20'] + (['C04'] if inst == 'orswot' else []) + (['C05'] if inst == 'map' else [])
+                props = ['C18', 'C20', 'C03', 'C09'] + (['C04'] if inst == 'orswot' else []) + (['C05'] if inst == 'map' else [])
                 resets = [c2 for b2, c2 in cit.calls.items() if call_name(c2.term) == 'reset_remove' and is_call(c2.term, 'reset_remove', self_adt='VClock')]
                 if not resets:
                     # maybe the reset happens in an earlier stage of the chain (`.map(reset).filter(non-empty)`): the loop form below
@@ -251,7 +260,7 @@ def rr_prune(ctx):
                 if flt is None or not resets:
                     continue
                 name = '%s/%s' % (inst, field)
-                props = ['C18', 'C20'] + (['C04'] if inst == 'orswot' else []) + (['C05'] if inst == 'map' else [])
+                props = ['C18', 'C20', 'C03', 'C09'] + (['C04'] if inst == 'orswot' else []) + (['C05'] if inst == 'map' else [])
                 tgt_id = versionless(resets[0][1].args[0].val)
 
                 def atom(t, tgt_id=tgt_id):
